@@ -21,7 +21,10 @@ Section Nodes11.
       ndels dw = map fst orphan /\
       (sc = PathScheme -> forall x, In x orphan ->
          (exists path, fst x = 65 :: path) /\
-         ~ In (fst x) (map fst (nk H sc zero_hash (nodes_of H [] (state_trie H db))))).
+         ~ In (fst x) (map fst (nk H sc zero_hash (nodes_of H [] (state_trie H db))))) /\
+      (exists rs ws, run_partitions H sc db partitions = GOk rs /\
+         assemble_root H sc (map r_root rs) = GOk (expected, ws) /\
+         pw ++ dw = concat (map r_ws rs) ++ ws).
   Proof.
     intros Hwf Hsm Hok.
     destruct (assembly_cases H H_len sc expected db st Hwf Hsm Hok) as (rs & ws & ts & Er & Ea & Esnd & HF3 & Lts & Hgood & Hcase).
@@ -55,6 +58,7 @@ Section Nodes11.
         apply Permutation_sym. eapply Permutation_trans; [apply Permutation_flat_map; exact PP|].
         rewrite flat_map_concat, map_map. apply Permutation_refl.
       + exact PA.
-    - split; [rewrite Ews, ndels_app, Dp0 in Dw; exact Dw|exact Hfresh].
+    - split; [rewrite Ews, ndels_app, Dp0 in Dw; exact Dw|]. split; [exact Hfresh|].
+      exists rs, ws. split; [exact Er|]. split; [exact Ea|]. rewrite Ews, app_assoc. reflexivity.
   Qed.
 End Nodes11.
